@@ -32,7 +32,7 @@ ASSUMPTIONS = [
     "touch a pole are monotone in longitude)",
     "enclosure is checked at 1e-9 rad, tightness at 1e-8 rad; longitudes are compared modulo 2 pi",
 ]
-BOUNDS = {"quick": "n-gons: radii {2,10,30,44} x 20 centres x 1 phase; lattice faces on 2 placements; all start corners", "thorough": "n-gons x 3 phases; lattice faces on 6 placements; all start corners"}
+BOUNDS = {"quick": "n-gons: radii {2,10,30,44} x 20 centres x 1 phase; lattice faces on 2 placements; all start corners", "thorough": "n-gons: 7 radii x 20 centres x 3 phases; every 3-/4-subset and every convex 5-subset of the 4x4 lattice on 6 placements; all start corners"}
 MARG = 1e-7
 CENTRES = [
     (0.0, 90.0), (0.0, -90.0), (30.0, 89.0), (-100.0, -88.5), (77.0, 75.0), (-20.0, -70.0),  # near / on poles (small radii: near; large radii: enclosing, off-centre)
@@ -132,7 +132,7 @@ def _faces(tier):
     """yields (descr, P)"""
     phases = [0.13] if tier == "quick" else [0.13, 0.9, 2.3]
     for n in range(3, 9):
-        for rad in (2.0, 10.0, 30.0, 44.0):
+        for rad in ((2.0, 10.0, 30.0, 44.0) if tier == "quick" else (0.5, 2.0, 5.0, 10.0, 20.0, 30.0, 44.0)):
             for ci, c in enumerate(CENTRES):
                 for ph in phases:
                     yield {"fam": "ngon", "n": n, "r": rad, "c": ci, "ph": ph}, _ngon(n, rad, c, ph)
@@ -141,7 +141,7 @@ def _faces(tier):
     places = [(20.0, 30.0), (-178.0, -40.0)] if tier == "quick" else [(20.0, 30.0), (-178.0, -40.0), (-4.0, 60.0), (175.0, 5.0), (100.0, -75.0), (-60.0, 80.0)]
     for pi, (lo, la) in enumerate(places):
         pts = [meshes.lonlat_to_xyz(lo + a, la + b if la + b < 89 else 89.0 - 0.01 * a) for a, b in base]
-        for k in (3, 4):
+        for k in ((3, 4) if tier == "quick" else (3, 4, 5)):
             for comb in itertools.combinations(range(16), k):
                 if k == 4 and (comb[0] + comb[1] + comb[2] + comb[3]) % (3 if tier == "quick" else 1) != 0:
                     continue
@@ -149,6 +149,8 @@ def _faces(tier):
                 c = sph.unit(P.mean(axis=0))
                 ang = np.arctan2(np.dot(P, np.cross(c, [0, 0, 1.0])), np.dot(P, np.cross(np.cross(c, [0, 0, 1.0]), c)))
                 P = P[np.argsort(-ang)]
+                if k == 5 and not all(np.dot(np.cross(P[i], P[(i + 1) % k]), P[(i + 2) % k]) > 1e-9 for i in range(k)):
+                    continue  # pentagons: convex ones only (3-/4-subsets are kept as before)
                 yield {"fam": "lattice", "place": pi, "comb": list(comb)}, P
     # aligned faces: a corner exactly on lon = 0 / 180 / the equator, straddling that meridian
     for lon0 in (0.0, 180.0):
